@@ -121,7 +121,7 @@ func vRaceSetup(tier string) {
 	}
 	base := vPickPortBase(7)
 	setPortnumbers(base)
-	e.udpPort = base + 6
+	e.udpPort = vFreeUDPPort()
 	abort := make(chan struct{})
 	go RunClientUpdater(Ports.Status, abort)
 	RunRPCServer(Ports.RPC, false)
